@@ -18,6 +18,7 @@ pub mod c19;
 pub mod c11;
 pub mod c12;
 pub mod c16;
+pub mod api;
 pub mod c20;
 
 pub fn generate(suite: &str, tier: &str, seed: u64) -> Vec<String> {
@@ -42,6 +43,7 @@ pub fn generate(suite: &str, tier: &str, seed: u64) -> Vec<String> {
         "c11" => c11::generate(&mut rng, thorough),
         "c12" => c12::generate(&mut rng, thorough),
         "c16" => c16::generate(&mut rng, thorough),
+        "api" => api::generate(&mut rng, thorough),
         "c20" => c20::generate(&mut rng, thorough),
         "c14" => zone::generate_c14(&mut rng, thorough),
         _ => panic!("unknown suite {suite}"),
@@ -85,6 +87,9 @@ pub fn eval_more(t: &[&str]) -> String {
         return s;
     }
     if let Some(s) = c20::eval(t) {
+        return s;
+    }
+    if let Some(s) = api::eval(t) {
         return s;
     }
     if t[0].starts_with("cal_") {
